@@ -1,7 +1,9 @@
 mod c01;
+mod c02;
 mod c08;
 mod c09;
 mod c10;
+mod c11;
 mod c20;
 mod ev;
 mod gen;
@@ -20,11 +22,14 @@ fn main() {
         Some("thorough") => Tier::Thorough,
         _ => Tier::Quick,
     };
+    rayon::ThreadPoolBuilder::new().stack_size(1 << 30).build_global().expect("thread pool");
     match cmd {
         "c01" => c01::main(tier),
+        "c02" => c02::main(tier),
         "c08" => c08::main(tier),
         "c09" => c09::main(tier),
         "c10" => c10::main(tier),
+        "c11" => c11::main(tier),
         "c20" => c20::main(tier),
         "eval" => {
             // vmc eval '<program>' '<input as jq program>' [inputs as jq programs...]
